@@ -22,6 +22,7 @@ LENF = ("rules.shared_lenfield", "lenfield_rules", "ctx")
 
 FOREIGN = {
     "C01": [  # write -> read round trip
+        (("rules.C02", "sib_rules", "ctx"), "a large_file entry started through the extra-data API reads back: the re-patched local extra length counts the ZIP64 placeholder"),
         (LENF, "entries behind a ZIP64-sized one are read back: the central header announces exactly the extra bytes it emits"),
         (("rules.C12", "misuse_rules", "facts"), "every opener accepts every documented option combination: levels are validated in one place, for the method actually used"),
         (WREF, "the writer turns away no call sequence it used to accept"),
@@ -46,23 +47,27 @@ FOREIGN = {
         (("rules.C18", "bits_rules", "facts"), "the DOS date/time words are the packed fields"),
     ],
     "C03": [
+        (("rules.C10", "accessor_sibling_rules", "facts"), "is_dir() / is_file() answer by the last character, DOS separator included"),
         (("rules.C04", "table_rules", "facts"), "reading an entry returns its bytes or an error (CRC table)"),
         (("rules.C04", "wrap_rules", "facts"), "every decoding reader is wrapped in the CRC check"),
         (("rules.C18", "bits_rules", "facts"), "timestamps are unpacked per the DOS layout"),
         (("rules.C19", "flag_decode_rules", "facts"), "names/comments are decoded by the flagged encoding"),
     ],
     "C04": [
+        (("rules.shared_count", "count_rule", "facts"), "an interrupted or failed read leaves the adapters' accounting intact: a retried read cannot find \"no data left\" and skip the MAC / CRC comparison"),
         (RREF, "a damaged/short entry that was refused is still refused (no saturating/defaulting replaces the refusal)"),
         (("rules.C16", "open_rules", "facts"), "AES entries: the data length is the compressed size minus the overhead, checked"),
         (("rules.C03", "flagbits_rules", "facts"), "using_data_descriptor is bit 3 (streamed entries with a descriptor are refused, never mis-sized)"),
         (("rules.C10", "stack_rules", "facts"), "the streaming reader builds the same CRC-checked decoder stack"),
     ],
     "C07": [
+        (("rules.C19", "flag_decode_rules", "facts"), "files are created under the name the entry has: the streaming extractor decodes names by the flagged encoding like the central directory"),
         (("rules.C01", "mode_rules", "ctx"), "the mode an extractor applies is the recorded one: unix_mode() of a Unix-made entry is attrs >> 16, untouched by DOS attribute bits"),
         (("rules.C03", "acc_rules", "facts"), "unix_mode() reports the recorded mode"),
         (("rules.C03", "dosmode_rules", "facts"), "permission bits derived from DOS attributes"),
     ],
     "C08": [
+        (("rules.C02", "offs_rules", "ctx"), "a large_file entry's data start and accounting start lie behind its ZIP64 placeholder (positions observed on the stream)"),
         (LENF, "an entry that needs a central ZIP64 record is followed by records that are still found: the announced extra length covers the record"),
         (("rules.C13", "sameparser_rules", "facts"), "an archive with more than 65535 entries is re-read in full when opened for append: the count comes from the ZIP64-aware directory parser"),
         (XWALK, "the ZIP64 record is found wherever it stands among the extra records (every layout the specification allows)"),
@@ -84,6 +89,8 @@ FOREIGN = {
         (("rules.C04", "table_rules", "facts"), "contents are CRC-checked the same way"),
     ],
     "C13": [
+        (("rules.C03", "sentinel_rules", "facts"), "a ZIP64 base archive whose classic record holds real values can be opened for append"),
+        (("rules.C02", "limit_rules", "facts"), "a base archive with a maximal (65535-byte) comment can be re-finished"),
         (LENF, "re-written central records of old entries announce exactly the extra bytes emitted"),
         (("rules.shared_count", "count_rule", "facts"), "new entries written through a short-writing stream are accounted by the accepted bytes"),
         (XWALK, "the old entries' ZIP64 / AE-x records are re-read on record boundaries when an archive is opened for append"),
@@ -102,6 +109,7 @@ FOREIGN = {
         (("rules.C02", "flag_rules", "ctx"), "re-emitted names keep the flag that matches their bytes"),
     ],
     "C14": [
+        (("rules.C15", "open_rules", "facts"), "opening an unencrypted source with a (superfluous) password does not consume its first 12 bytes"),
         (("rules.C01", "patchoff_rules", "ctx"), "the local ZIP64 record of a copied large entry carries the sizes (written, or back-patched at the offset the writer computed)"),
         (("rules.C03", "central_rules", "ctx"), "the raw window handed to the copy is the entry's whole compressed stream (central size), for empty entries too"),
         (WREF, "any entry that can be opened raw can be copied: the copy path adds no refusal (method, timestamp, size ...)"),
@@ -163,13 +171,17 @@ FOREIGN = {
         (("rules.shared_count", "exact_rule", "facts"), "name and comment bytes are read with exact-length primitives (a bare read() truncates them on a short read)"),
     ],
     "C11": [
+        (("rules.C10", "seq_rules", "facts"), "a fault while skipping a streamed entry surfaces at the next call: only the central directory signature ends the entry sequence"),
+        (("rules.shared_refusals", "read_refusals", "ctx"), "no refusal of the reader is dropped (an unknown signature is an error, not the end of the archive)"),
         (("rules.C03", "central_rules", "ctx"), "a read failure while locating an entry stays an I/O error (it is not reclassified as a malformed archive that a caller may skip)"),
         (("rules.C15", "write_rules", "ctx"), "a failed flush of an encrypted entry leaves no half-finished encrypting writer behind (finish consumes it)"),
     ],
     "C05": [
+        (("rules.C10", "drain_rules", "facts"), "the streaming reader chooses the decoder by the method the AE-x record put in place (the header value 99 reaches make_reader's fall-through panic)"),
         (("rules.C02", "narrow_rules", "ctx"), "records parsed from untrusted bytes and re-emitted by an appending writer cannot overflow the serialisers' 16-bit length arithmetic"),
     ],
     "C20": [
+        (("rules.C07", "who_rules", "facts"), "extraction creates nothing under a name shared between handles (no temporary files, no renames)"),
         (("rules.C03", "central_rules", "ctx"), "opening an entry records its data start itself, on every path: what a handle reports never depends on what a clone did before"),
     ],
 }
